@@ -54,6 +54,18 @@ class Inferior:
             self.keep += [conn, disp, client]
         return self.conns[index]
 
+    def realloc(self, index):
+        """The program disconnected and connected again: the same wl_display / wl_client now points at a
+        newly allocated wl_connection (a different address)."""
+        cn = self.connection(index)
+        conn = gdb.wl_connection()
+        conn.fd = 200 + index
+        self.keep.append(cn['conn'])
+        self.keep.append(conn)
+        cn['conn'] = conn
+        cn['display'].connection = C.pointer(conn)
+        cn['client'].connection = C.pointer(conn)
+
     def new_connection_at_same_address(self, index):
         """libwayland freed the connection and allocated a new one at the same address:
         the memory is simply reused."""
@@ -169,8 +181,10 @@ def make_plugin(filt=None, stop=None, color=False, unprocessed=True):
     sut.reset_globals(color)
     sut.ensure_protocols()
     gdb._state.reset()
-    if hasattr(extract, 'gdb_fast_access_map'):
-        extract.gdb_fast_access_map.clear()
+    # every scripted inferior is a new process for the plugin: module-level state of the extractor (offset caches and
+    # whatever else it may keep) must not be carried from one history to the next - addresses do get reused
+    import importlib
+    importlib.reload(extract)
     t = [0.0]
 
     def clock():
